@@ -12,6 +12,25 @@ def c13_universe(tier):
                 docs=(D_ONE, D_MULTI, D_ONE_ALT))    # two documents of the same length: size says nothing
 
 
+FAULTED_ARGS = dict(pids=["a", "b"], contents=[C_ONE], formats=[None, "c"], fake_cid=False)
+
+
+def faulted_for(tier):
+    """pairs that contend on one identifier, explored together with one I/O error injected at a symbolic global
+    operation index: the failing call must still release and notify, the waiting call must not sleep forever"""
+    def fn(w):
+        def pairs():
+            return [([step.StoreObj(0, 0), step.StoreObj(1, 0)], ("empty store", {})),
+                    ([step.Delete(0), step.StoreObj(1, 0)], ("a bound to X", {"bind_0": 0, "obj_0": True})),
+                    ([step.StoreMeta(0, 0, None), step.StoreMeta(0, 1, None)], ("a bound to X with a document", {"bind_0": 0, "obj_0": True, "meta_0_0": 0})),
+                    ([step.Delete(0), step.DeleteMeta(0, None, all_docs=True)], ("a bound to X with a document", {"bind_0": 0, "obj_0": True, "meta_0_0": 0}))]
+        out = []
+        for calls, (iname, init) in pairs()[:(4 if tier == "thorough" else 2)]:
+            out.append(("%s || from: %s || one I/O error" % (" || ".join(c.label for c in calls), iname), init, calls))
+        return out
+    return fn
+
+
 def fold(run, results, prefix):
     for recs, st, nmenu in results:
         run.add_stats(st)
@@ -42,15 +61,36 @@ def fold(run, results, prefix):
 def main(tier, replay_payload=None):
     w_args = c13_universe(tier)
     if replay_payload is not None:
+        if replay_payload.get("family") == "faulted":
+            from engine import conc
+            return conc.replay_schedule(FAULTED_ARGS, faulted_for(tier), replay_payload["k"], replay_payload["log"],
+                                        replay_payload["bound"], replay_payload["clauses"][0],
+                                        fault_at=replay_payload.get("fault_at"))
         return fault.replay_fault(w_args, menu_fn, replay_payload["vals"], replay_payload["clauses"])
     run = report.Run("C13", tier, technique="pathsym with symbolic fault point, stickiness and errno over the file-system "
                      "model (one fault per call); obligations by z3 validity; passthrough replay with a real OSError")
-    run.replayer = lambda p: fault.replay_fault(w_args, menu_fn, p["vals"], p["clauses"])
+    def replayer(p):
+        if p.get("family") == "faulted":
+            from engine import conc
+            return conc.replay_schedule(FAULTED_ARGS, faulted_for(tier), p["k"], p["log"], p["bound"], p["clauses"][0],
+                                        fault_at=p.get("fault_at"))
+        return fault.replay_fault(w_args, menu_fn, p["vals"], p["clauses"])
+    run.replayer = replayer
     nerr = 3 if tier == "thorough" else 1
     res = fault.explore_faults(w_args, menu_fn, nerr)
     from engine import battery
     battery.validate(run)
     fold(run, res, "C13:")
+    # one I/O error while two calls contend for one object: a call that reports success has achieved its effect (its
+    # pid is retrievable with the right bytes) whatever the failing call cleaned up
+    from engine import conc
+    from props.C07 import fold as sched_fold
+    nf = 2 if tier == "thorough" else 1
+    outs = conc.explore_scenarios(FAULTED_ARGS, lambda w: faulted_for(tier)(w)[:nf], 1, with_fault=True)
+    before = set(run.failures)
+    sched_fold(run, outs, "C13:", 1)
+    for sig in set(run.failures) - before:
+        run.failures[sig]["payload"]["family"] = "faulted"
     run.functions = loader.function_lines(loader.load(), API_FUNCS)
     run.bounds = dict(pids=w_args["pids"], contents=[len(c) for c in w_args["contents"]], formats=w_args["formats"],
                       calls=res[0][2], faults="one per call: once, or persistent for that destination until the call "
